@@ -606,6 +606,9 @@ locals {
   ns      = provider::aws::arn_parse("arn")
   größe   = "ü"
   usage   = "${local.größe}-${local.größe}"
+  rules   = [{ name = "http", port = 80 }, { name = "https", port = 443 }]
+  nested  = { outer = { inner = "v", other = [1, 2] }, "quoted key" = { a = 1, b = 2 } }
+  picked  = local.rules[1].name
 }
 
 provider "aws" {
